@@ -26,6 +26,7 @@ from geometer.exceptions import TensorComputationError
 from . import sched, seam, snapshot, world as W
 
 MAX_ELEMS = 1 << 18
+NARROW_CAP = {"b": 1, "i8": 127, "i32": 2 ** 31 - 1}   # largest magnitude a narrow node dtype can hold
 
 
 # ---------------------------------------------------------------------------------------------------------------------
@@ -247,6 +248,8 @@ def gen_tensor_recipe(rng, cfg, slot) -> tuple[dict, MTensor]:
                 return rec, MTensor(arr, cov, con, int8=1)
             elif c2 < 0.3:
                 kw["dt"] = "i32"
+                rec = {"slot": slot, "k": "tensor", "a": [re], "kw": kw}
+                return rec, MTensor(arr, cov, con, int8=NARROW_CAP["i32"])
             if r >= 1 and rng.random() < 0.3:
                 kw["layout"] = rng.choice(["F", "T", "S"])
         rec = {"slot": slot, "k": "tensor", "a": [re], "kw": kw}
@@ -543,7 +546,7 @@ def model_tensors_from_recipes(recipes) -> dict[int, MTensor]:
             cov = kw.get("cov", True)
             cov = list(range(arr.ndim)) if cov is True else ([] if cov is False else list(cov))
             ts[r["slot"]] = MTensor(arr, cov, [i for i in range(arr.ndim) if i not in cov],
-                                    int8={"b": 1, "i8": 127}.get(kw.get("dt"), 0))
+                                    int8=NARROW_CAP.get(kw.get("dt"), 0))
         elif k == "ctensor":
             arr = np.array(a[0], dtype=np.int64) + 1j * np.array(a[1], dtype=np.int64)
             cov = list(kw.get("cov", []))
@@ -555,7 +558,7 @@ def model_tensors_from_recipes(recipes) -> dict[int, MTensor]:
             rel = list(range(rank)) if rel is True else ([] if rel is False else list(rel))
             cov = [1 + i for i in rel]
             ts[r["slot"]] = MTensor(arr, cov, [i for i in range(1, arr.ndim) if i not in cov],
-                                    int8={"b": 1, "i8": 127}.get(kw.get("dt"), 0), free=1)
+                                    int8=NARROW_CAP.get(kw.get("dt"), 0), free=1)
         elif k == "eps":
             n, cov = a
             ts[r["slot"]] = MTensor(W.eps_ref(n).astype(np.int64), range(n) if cov else [], [] if cov else range(n), True)
@@ -742,6 +745,8 @@ def compare_value(step, got, exp_payload, flags=()) -> dict | None:
                             f"model predicts a value, library raised {type(got).__name__}: {got}", flags)
     if not isinstance(got, Tensor):
         return mk_violation(step, "not-a-tensor", f"library returned {type(got).__name__}", flags)
+    if got.array.dtype.kind in "fc" and bound > 2.0 ** 52:
+        return "skip"  # partial sums beyond 2^53 are not exact in floating point: summation order would matter
     if all_int8 and bound > int(all_int8):
         return "skip"  # overflow of all-int8 (epsilon) / all-bool diagrams is an input/dtype matter, out of scope here
     if len(exp_payload) > 6:
